@@ -46,6 +46,18 @@ CHECKS['C08'] = dict(
     technique='Lean 4 proof (structural induction over the token tree; decide over regenerated escape tables) + byte-exact renderer correspondence',
     ref='DESIGN.md section 5, C08')
 
+CHECKS['C18'] = dict(
+    text='Lean 4 theorems `decide`d on tables regenerated from the imported working tree on every run: outside their '
+         'own extension keys the Toc/GithubWiki/MathJax/Pygments renderers resolve every render_map entry and every '
+         'helper method to the same function as HtmlRenderer (covers the MathJax double-inheritance MRO), and their '
+         'token lists differ only by the extension token; in the model the rendering functions are shared and the '
+         'output is the HTML output plus the MathJax script suffix. Each real contrib renderer is compared byte for '
+         'byte with the model, and with the real HtmlRenderer on inputs meeting the side condition.',
+    note='Trusted: Lean kernel (no axioms beyond propext/Quot.sound/Classical.choice); introspection translator; '
+         'correspondence harness. Pygments is not modelled (compared only without code blocks).',
+    technique='Lean 4 proof by `decide` over regenerated method-resolution/token tables + renderer correspondence + direct differential of the real renderers',
+    ref='DESIGN.md section 5, C18')
+
 NOT_YET = {}
 
 
